@@ -363,7 +363,7 @@ PROPS["C13"] = dict(
     tests=[
         dict(name="hostile", run="^TestHostileInputs$", quick=dict(shards=10, checks=500, timeout=600), thorough=dict(shards=10, checks=25000, timeout=3400)),
         dict(name="sweep", kind="plain", run="^TestSingleByteSweep$", quick=dict(shards=4, timeout=600), thorough=dict(shards=8, timeout=3400)),
-        dict(name="caps", run="^(TestOversizeDeclarations|TestConcurrentPushPullCap|TestHandoffQueueDepth)$", quick=dict(shards=2, checks=150, timeout=600), thorough=dict(shards=4, checks=2000, timeout=3000)),
+        dict(name="caps", run="^(TestOversizeDeclarations|TestConcurrentPushPullCap|TestHandoffQueueDepth|TestReplayFlood)$", quick=dict(shards=2, checks=150, timeout=600), thorough=dict(shards=4, checks=2000, timeout=3000)),
         dict(name="bomb", kind="plain", run="^(TestDecompressionBomb|TestKnownMsgpackStreamAlloc)$", quick=dict(shards=1, timeout=600)),
         dict(name="seedcorpus", kind="plain", run="^Fuzz", quick=dict(shards=1, timeout=600)),
         dict(name="fuzzpkt", kind="fuzz", run="^FuzzPacket$", thorough=dict(fuzztime="300s", timeout=700)),
